@@ -97,7 +97,7 @@ def gen(chk, tier):
     # call leaves behind (object or package-level scratch, cached powers of H, counters) meets a different shape
     shapes = [(12, 0, 0), (12, 0, 1), (12, 5, 15), (12, 16, 16), (12, 13, 17), (12, 0, 64), (12, 130, 100), (12, 64, 255),
               (12, 3, 256), (12, 0, 300), (16, 5, 33), (1, 0, 7), (128, 20, 129), (300, 1, 2), (12, 257, 0), (12, 0, 1024)]
-    for si in range(6 if q else 200):
+    for si in range(6 if q else 800):
         sc[0] += 1
         k = sc[0]
         cmds.append(dict(sc=k, op="scenario", cls="session"))
@@ -114,7 +114,7 @@ def gen(chk, tier):
             cmds.append(dict(sc=k, op="gcm.seal", h="%s%d" % (hname, nl), nonce=rb(rng, nl), aad=rb(rng, al), pt=rb(rng, pl),
                              prefix=[], spare=-1, alias="none", repeat=False, j="v%d" % ci))
     # (7) seeded random, several keys
-    for _ in range(20 if q else 1500):
+    for _ in range(20 if q else 6000):
         k2 = rb(rng, 16)
         n = rng.choice([12, 12, rng.randrange(1, 301)])
         seal("random", k2, rb(rng, n), rb(rng, rng.randrange(0, 300)), rb(rng, rng.randrange(0, 600)))
